@@ -161,6 +161,16 @@ pub fn family(name: &str, quick: bool) -> Vec<Scenario> {
 
 pub fn life(quick: bool) -> Vec<Scenario> {
     let mut v = vec![
+        // resources whose labels are not their positions: a range that starts at 1, a list of names
+        Scenario::new(
+            "life-labels",
+            vec![w(3).with_kind("gpus", "range1", 3).with_kind("fpgas", "list", 2)],
+            vec![vec![
+                sub(SubmitSpec::array(&[0, 1, 2], RqSpec::cpus(1).entry("gpus", "compact", 10_000))),
+                sub(SubmitSpec::array(&[0, 1], RqSpec::cpus(1).entry("fpgas", "compact", 10_000))),
+            ]],
+        )
+        .depth(if quick { 12 } else { 0 }),
         Scenario::new("life-2t-1w", vec![w(2)], vec![vec![sub(arr(&[0, 1], 1))]]).budgets(0, 1, 0, 1),
         Scenario::new(
             "life-2t-1w-cancel",
@@ -998,6 +1008,15 @@ pub fn journal(quick: bool) -> Vec<Scenario> {
         )
         .journal()
         .budgets(1, 0, 1, 2),
+        // a task aborted (max-fails) while it runs; the journal can end between TasksAborted and
+        // JobCompleted
+        Scenario::new(
+            "journal-maxfails-running",
+            vec![w(2)],
+            vec![vec![sub(arr(&[0, 1], 1).max_fails(0))]],
+        )
+        .journal()
+        .budgets(0, 1, 0, 1),
         // crash limit 1: the journal can end between the WorkerLost record that reaches the limit and
         // the TaskFailed record that follows it
         Scenario::new(
